@@ -34,9 +34,10 @@ inline bool unhex(const std::string& s, std::string& out) {
   return true;
 }
 
-struct Act { int kind = 0; long k = 0; int code = 0; };   // 0 all, 1 some, 2 err
+struct Act { int kind = 0; long k = 0; int code = 0; };   // 0 all (Size() items), 1 some, 2 err, 3 while (Size() != 0)
 inline bool parseAct(const std::string& s, Act& a) {
   if (s == "all") { a.kind = 0; return true; }
+  if (s == "while") { a.kind = 3; return true; }
   if (s.rfind("some:", 0) == 0) { a.kind = 1; a.k = atol(s.c_str() + 5); return true; }
   if (s.rfind("err:", 0) == 0) {
     a.kind = 2;
@@ -88,12 +89,14 @@ struct RecHandler : mp::SOLHandler {
   template <class VR>
   std::string vec(VR& rd, const Act& a) {
     long offered = rd.Size();
-    long want = a.kind == 0 ? offered : std::min<long>(a.k, offered);
+    // "all": read Size() items;  "while": the default SOLHandler loop `while (rd.Size()) rd.ReadNext()`
+    // (capped: a reader that offers a negative count would otherwise only stop at a read error)
+    long want = a.kind == 0 ? offered : a.kind == 3 ? 50000000L : std::min<long>(a.k, offered);
     std::string items;
     long cnt = 0, good = 0;
     while (rd.Size() && cnt < want) {
       auto v = rd.ReadNext();
-      if (rd.ReadResult() == NLW2_SOLRead_OK) { items += (good++ ? "," : "") + val(v); }
+      if (rd.ReadResult() == NLW2_SOLRead_OK) { if (good < 100000) items += (good ? "," : "") + val(v); good++; }
       cnt++;
     }
     if (a.kind == 2 && rd.ReadResult() == NLW2_SOLRead_OK)
